@@ -40,6 +40,13 @@ pub fn check(ctx: &NetCtx, f: &F) -> Option<String> {
 }
 
 pub fn replay(case: &Value) -> Option<String> {
+    if case["kind"] == "unsafe_ex_history" {
+        let first: crate::nets::NetSpec = serde_json::from_value(case["first"].clone()).ok()?;
+        let a = crate::bridge::Bound::new("first", &first, 3).ok()?;
+        for w in case["warm"].as_array()? {
+            let _ = guarded(AssertUnwindSafe(|| mc::model_check_formula_dirty(w.as_str().unwrap_or("a"), &a.graph)));
+        }
+    }
     let spec = serde_json::from_value(case["net"].clone()).ok()?;
     let b = Arc::new(crate::bridge::Bound::new("replay", &spec, 3).ok()?);
     let ctx = NetCtx::new(b, Labels::default(), "none");
@@ -107,13 +114,78 @@ pub fn run(tier: &str) -> Result<Report, String> {
         rep.violations.extend(bad.into_iter().take(5));
     }
     rep.set("steady_state_free_networks_of_the_2_variable_family", json!(n_free2));
+    // histories: two networks with the SAME symbolic encoding (variables a, b; no parameters; unit = true)
+    // but different update functions, checked one after the other on one fresh OS thread; the second
+    // one is steady-state free, so both variants must agree on it for ALL formulae, whatever was
+    // evaluated before on that thread (and both must agree with the oracle)
+    {
+        let funs = ["a", "!a", "b", "!b", "a & b", "a | !b", "!a & b", "true", "false"];
+        let mut same_ctx: Vec<Arc<crate::bridge::Bound>> = vec![];
+        for fa in funs {
+            for fb in funs {
+                let sp = crate::nets::spec(&format!("a -?? a; b -?? a; a -?? b; b -?? b; $a: {fa}; $b: {fb}"));
+                if let Ok(b) = crate::bridge::Bound::new(&format!("h[{fa};{fb}]"), &sp, 3) {
+                    same_ctx.push(Arc::new(b));
+                }
+            }
+        }
+        let firsts: Vec<Arc<crate::bridge::Bound>> = same_ctx.iter().filter(|b| b.cols.iter().any(|c| c.steady.iter().any(|s| *s))).cloned().collect();
+        let seconds: Vec<Arc<crate::bridge::Bound>> = same_ctx.iter().filter(|b| b.cols.iter().all(|c| c.steady.iter().all(|s| !*s))).cloned().collect();
+        let (nf, ns) = if tier == "quick" { (6, 6) } else { (firsts.len(), seconds.len()) };
+        let step = |n: usize, k: usize| -> Vec<usize> { (0..n).step_by((n / k.max(1)).max(1)).take(k).collect() };
+        let mut alpha_h = Alphabet::plain(2, 1);
+        alpha_h.bi = crate::formulas::ALL_BI.to_vec();
+        let fs_h = Gen::new(alpha_h).closed_up_to(2);
+        let warm = ["AX a", "!{x}: AX {x}", "EG b", "a EW b"];
+        let mut pairs = vec![];
+        for i in step(firsts.len(), nf) {
+            for j in step(seconds.len(), ns) {
+                pairs.push((firsts[i].clone(), seconds[j].clone()));
+            }
+        }
+        let n_pairs = pairs.len();
+        let bad: Vec<Violation> = pairs
+            .into_par_iter()
+            .filter_map(|(a, b)| {
+                let fs_h = fs_h.clone();
+                std::thread::spawn(move || {
+                    for w in warm {
+                        let _ = guarded(AssertUnwindSafe(|| mc::model_check_formula_dirty(w, &a.graph)));
+                    }
+                    let ctx = NetCtx::new(b.clone(), Labels::default(), "none");
+                    for f in &fs_h {
+                        let mut what = check(&ctx, f);
+                        if what.is_none() {
+                            if let Got::Set(s) = ctx.formula_dirty(&f.show(&ctx.user)) {
+                                what = ctx.diff_dirty(&s, &ctx.expected(f)).map(|d| format!("standard evaluation differs from the explicit-state semantics: {d}"));
+                            }
+                        }
+                        if let Some(w) = what {
+                            return Some(Violation {
+                                case: json!({"kind": "unsafe_ex_history", "first": a.spec, "net": b.spec, "aeon": b.aeon, "formula": f, "warm": warm}),
+                                what: format!("after evaluating {warm:?} on [{}] on the same thread, formula {} on [{}]: {w}", a.aeon.replace('\n', "; "), f.show(&ctx.user), b.aeon.replace('\n', "; ")),
+                                size: f.size(),
+                            });
+                        }
+                    }
+                    None
+                })
+                .join()
+                .unwrap_or(None)
+            })
+            .collect();
+        rep.evaluations += (n_pairs * fs_h.len() * 2) as u64;
+        rep.add_count("two_network_histories", n_pairs as u64);
+        rep.set("history_networks", json!({"same_encoding_networks": same_ctx.len(), "with_steady_states": firsts.len(), "steady_state_free": seconds.len(), "ordered_pairs_run": n_pairs, "formulae_on_second": fs_h.len()}));
+        rep.violations.extend(bad.into_iter().take(20));
+    }
     if steady_free.is_empty() {
         return Err("no steady-state-free network in the family".into());
     }
     rep.set("steady_state_free_networks", json!(steady_free));
     rep.sample(json!({"network": "asy2", "formula": "(!{x}: (AG (EF {x})))", "fragment": true}));
     rep.sample(json!({"network": "cyc3", "formula": "(!{x}: (AX (AF {x})))", "fragment": false, "why": "cyc3 has no steady state in any colour (decided by the independent transition systems)"}));
-    rep.rule = format!("core networks and the steady-state-free networks of the de-duplicated all-2-variable family (all formulae with <= 3, thorough 4, nodes): on networks where the independent transition systems have no steady state in any colour ({steady_free:?}) ALL closed formulae with <= {m_free} nodes over all operators (+ templates); on the others all closed formulae with <= {m_frag} nodes over the loop-insensitive fragment {{~ & | ^ => <=> EF AG EU AW ! @ 3 V}} (+ fragment templates): model_check_formula_unsafe_ex must return the same raw set as model_check_formula_dirty (BDD equality). distinct_nontrivial = number of (formula, network) pairs");
+    rep.rule = format!("core networks and the steady-state-free networks of the de-duplicated all-2-variable family (all formulae with <= 3, thorough 4, nodes): on networks where the independent transition systems have no steady state in any colour ({steady_free:?}) ALL closed formulae with <= {m_free} nodes over all operators (+ templates); on the others all closed formulae with <= {m_frag} nodes over the loop-insensitive fragment {{~ & | ^ => <=> EF AG EU AW ! @ 3 V}} (+ fragment templates): model_check_formula_unsafe_ex must return the same raw set as model_check_formula_dirty (BDD equality). plus two-network histories: ordered pairs (first network with steady states, second steady-state free, identical symbolic encoding) evaluated one after the other on one fresh OS thread, all formulae with <= 2 nodes on the second: variants agree and match the oracle. distinct_nontrivial = number of (formula, network) pairs");
     rep.assumptions.push("the standard evaluation itself is validated against the oracle by C01/C13".into());
     Ok(rep)
 }
